@@ -67,6 +67,8 @@ func checkC12(p *Prog, r *Report) {
 	}
 	r.Floor("R7", "deletions on the per-peer maps", nDel, 3)
 	approvalCleanupRule(p, r, "R8")
+	r.Rule("R9", "every approval callback registered takes part: AddWriteApprovalCallback stores its callback on every path that does not return an error (no registration is dropped silently)")
+	registrationRule(p, r, "R9", "AddWriteApprovalCallback", "FeatureLocal.writeApprovalCallbacks")
 	r.Rule("R2", "whoever deletes a pending entry and then produces an outcome claims it: a comma-ok look-up of the entry and its deletion share one critical section, and every outcome effect is reached only if the look-up found the entry")
 	r.Rule("R3", "resolver paths: claimed ⇒ exactly one outcome (the write executor exactly once, or exactly one error result); not claimed or not yet unanimous ⇒ no outcome")
 	nResolvers := 0
